@@ -249,10 +249,8 @@ func r19_3(c *Ctx, rule string) {
 		size, _ = call.(*ssa.Call)
 	}
 	okAlloc := false
-	if bo, ok := m.alloc.Call.Args[1].(*ssa.BinOp); ok && bo.Op == token.ADD && size != nil {
-		if k, isK := eng.ConstInt(bo.Y); isK && k == 4 && bo.X == ssa.Value(size) {
-			okAlloc = true
-		}
+	if other, ok := eng.SumWithConst(m.alloc.Call.Args[1], 4); ok && size != nil && eng.SameValue(other, size) {
+		okAlloc = true
 	}
 	c.R.Check(okAlloc, rule, base+"/frame-size", c.pos(m.alloc), "alloc(stat.SizeVT() + 4)", "the frame is not allocated as SizeVT()+4 bytes: the record overruns or leaves garbage")
 	// prefix
@@ -522,12 +520,11 @@ func r19_7(c *Ctx, rule string) {
 			c.R.Check(v.Len == ssa.Value(n), rule, con+"/length", c.pos(r), "make([]byte, n)", "alloc returns a fresh slice whose length is not n")
 		case *ssa.Slice:
 			switch {
-			case v.Low == nil:
+			case eng.SliceLow(v) == nil:
 				_, fresh := v.X.(*ssa.Alloc)
 				c.R.Check(fresh && v.High == ssa.Value(n), rule, con+"/length", c.pos(r), "the first n bytes of a fresh chunk", "alloc returns a prefix of a chunk whose length is not n")
 			default:
-				hi, isAdd := v.High.(*ssa.BinOp)
-				okLen := isAdd && hi.Op == token.ADD && hi.X == v.Low && hi.Y == ssa.Value(n)
+				okLen := eng.IsSumOf(v.High, v.Low, n)
 				c.R.Check(okLen, rule, con+"/length", c.pos(r), "bytes [l, l+n) of the last chunk", "alloc returns a window of the last chunk that is not [l, l+n)")
 				// l is the chunk's old length
 				lenCall, isLen := v.Low.(*ssa.Call)
@@ -539,14 +536,17 @@ func r19_7(c *Ctx, rule string) {
 					if !ok {
 						return
 					}
-					bo, ok := iff.Cond.(*ssa.BinOp)
-					if !ok || bo.Op != token.LEQ {
+					small, big, whenTrue, ok := eng.Leq(iff.Cond)
+					if !ok {
 						return
 					}
-					capCall, isCap := bo.Y.(*ssa.Call)
-					sum, isSum := bo.X.(*ssa.BinOp)
-					if isCap && c.P.CalleeName(capCall) == "builtin:cap" && isSum && sum.Op == token.ADD && sum.Y == ssa.Value(n) {
+					capCall, isCap := big.(*ssa.Call)
+					_, isSum := eng.SumWith(small, n)
+					if isCap && c.P.CalleeName(capCall) == "builtin:cap" && isSum {
 						t := iff.Block().Succs[0]
+						if !whenTrue {
+							t = iff.Block().Succs[1]
+						}
 						if t == r.Block() || t.Dominates(r.Block()) {
 							guarded = true
 						}
@@ -597,7 +597,7 @@ func r19_7(c *Ctx, rule string) {
 				}
 			}
 			valOK := false
-			if sl, isS := s.Val.(*ssa.Slice); isS && sl.Low == nil {
+			if sl, isS := s.Val.(*ssa.Slice); isS && eng.SliceLow(sl) == nil {
 				if ld, isL := sl.X.(*ssa.UnOp); isL && ld.Op == token.MUL {
 					if ia2, isIA := ld.X.(*ssa.IndexAddr); isIA && isFieldLoad(ia2.X, "fsutil.buffer.chunks") {
 						valOK = true
